@@ -39,6 +39,8 @@ def readbacks(r):
         rb["pcq"] = st.sample(s["pcq"], grid="control")[1]
     if d["vc"] == "both":
         rb["vcq"] = st.sample(s["vcq"], grid="control")[1]
+    if d["vc"] == "two":
+        rb["vc2"] = st.sample(s["vc2"], grid="control-")[1]
     if d["pg"]:
         rb["pg"] = st.value(s["pg"])
     rb["DTc"] = st.sample(st.DT_control, grid="control")[1]
@@ -133,6 +135,23 @@ def compare_case(d, want=("rows", "obj"), full_alphabet=True, return_rows=False)
     exs = [e[nlp.nx:] for e in epts]
     res.nw = nlp.nx
     res.n_points = len(pts)
+    # every per-interval / global decision quantity the user declared is its own coordinate of the decision vector:
+    # the read-back of controls and variables has full row rank in the decision vector (and the inactive extras)
+    if full_alphabet:
+        q0_ = nlp.read(pts[0], extra=exs[0])
+        lk = [k for k in ("U", "vg", "vc", "vcq", "vc2") if k in q0_]
+        if lk:
+            base_ = np.concatenate([np.asarray(q0_[k], dtype=float).reshape(-1) for k in lk])
+            cols = []
+            nall = nlp.nx + nlp.n_extra
+            for i in range(nall):
+                e_ = np.concatenate([pts[0], exs[0]]).astype(float); e_[i] += 1.0
+                qi_ = nlp.read(e_[:nlp.nx], extra=e_[nlp.nx:])
+                cols.append(np.concatenate([np.asarray(qi_[k], dtype=float).reshape(-1) for k in lk]) - base_)
+            Jl = np.array(cols).T if cols else np.zeros((base_.size, 0))
+            rk = int(np.linalg.matrix_rank(Jl, tol=1e-9)) if Jl.size else 0
+            if rk < base_.size:
+                res.add("dyn:labels", "value", "the %d declared entries of %s span only %d independent decision coordinates" % (base_.size, lk, rk))
     res.n_extra = nlp.n_extra
     f_real, rows_real = NL.canon_rows(nlp, pts)
     res.n_rows = len(rows_real)
@@ -251,7 +270,7 @@ def compare_case(d, want=("rows", "obj"), full_alphabet=True, return_rows=False)
     return res
 
 
-LABEL_KEYS = ("X", "U", "Xi", "Xr", "Zr", "vg", "vc", "vcq")
+LABEL_KEYS = ("X", "U", "Xi", "Xr", "Zr", "vg", "vc", "vcq", "vc2")
 
 
 def label_solve(nlp, q, keys=LABEL_KEYS, base=None):
